@@ -3,19 +3,19 @@ use super::*;
 use std::mem::size_of;
 
 fn within(reported: usize, retained: usize, components: usize) -> bool {
-    let tol = retained / 32 + 48 * components;
+    let tol = retained / 32 + 24 * components;
     (if reported > retained { reported - retained } else { retained - reported }) <= tol
 }
 
 // @h props=C16,C04:t tier=quick family=A mem=6 timeout=1800 role=space.darray
-// @bound DArray<true> assembled from an empty bit vector and two Inventories whose three buffers have symbolic independent lengths (blocks 0..=32, sub-blocks 0..=128, overflow 0..=32)
+// @bound DArray<true> assembled from an empty bit vector and two Inventories whose three buffers have symbolic independent lengths (blocks 0..=32, sub-blocks 0..=128, overflow 0..=64)
 // @funcs DArray::space_usage_byte, Inventories::space_usage_byte, Box<[T]>::space_usage_byte
 #[kani::proof]
 #[kani::unwind(130)]
 fn c16_darray() {
     let b1 = kani::vec::any_vec::<i64, 32>();
     let s1 = kani::vec::any_vec::<u16, 128>();
-    let o1 = kani::vec::any_vec::<usize, 32>();
+    let o1 = kani::vec::any_vec::<usize, 64>();
     let b0 = kani::vec::any_vec::<i64, 32>();
     let ret = size_of::<DArray<true>>() + 8 * b1.len() + 2 * s1.len() + 8 * o1.len() + 8 * b0.len();
     let ones = Inventories::<true> {
